@@ -367,6 +367,9 @@ def _setup_controller(case, df, ctx, feats):
         from chi.library import ModelLibrary
         m_ = ModelLibrary().one_compartment_pk_model()
         m_.set_administration('central', direct=case.direct)
+        if len(case.outputs) == 2:
+            # (the user's model returns the same outputs in another order)
+            m_.set_outputs(list(case.outputs)[::-1])
         c = chi.ProblemModellingController(
             m_, case.error_models(), outputs=list(case.outputs))
     else:
